@@ -55,8 +55,12 @@ def gen(rng, tier):
         # inside the library get their chance to fire while nothing is queued
         src_delays = [0] * n
         src_delays[rng.randrange(n)] = rng.choice([0.1, 0.1, 0.5, 1.0, 1.0, 1.0, 1.0, 2.0, 10.0, 60.0])
+        if rng.random() < 0.5:
+            # ... and everything else instantaneous, so that the stall starts at the very instant the rest of the pipeline goes idle:
+            # the library's own timed waits then expire at the same virtual instant as the stall ends (timers tie)
+            st['delays'] = [0]
     sc = {'n': n, 'mode': mode, 'stages': [st], 'src_delays': src_delays,
-          'consumer_delay': rng.choice([0, 0, 0, 0.002, 0.03])}
+          'consumer_delay': rng.choice([0, 0, 0, 0.002, 0.03]) if any(st['delays']) or len(src_delays) == 1 else 0}
     cfg = swarm(rng, racy=0.15, line=0.2, max_time=200.0)
     if mode == 'parmap_process':
         cfg['pipe_cap'] = rng.choice([4096, 65536])
